@@ -419,6 +419,25 @@ func C11(r *core.Run) {
 			}
 		}
 	})
+	// several assembly files per rule id in one --all run: every operand gets the regex of its own file
+	multi, d4 := core.Parallel(r, "multi", spec, 1, func(in in, shard, n int, emit func(offRes)) {
+		sb := filepath.Join(in.Dir, "multi")
+		texts := []string{"zero", "one", "two", "other", "otherone"}
+		for rot := 0; rot < len(texts); rot++ {
+			tx := append(append([]string{}, texts[rot:]...), texts[:rot]...)
+			old := []ruleSpec{{ID: "123456", Regex: "OLD", Chain: []string{"OLDC1", "OLDC2"}}, {ID: "123457", Regex: "OLDB", Chain: []string{"OLDB1"}}}
+			want := []ruleSpec{{ID: "123456", Regex: tx[0], Chain: []string{tx[1], tx[2]}}, {ID: "123457", Regex: tx[3], Chain: []string{tx[4]}}}
+			t := core.Tree{"regex-assembly/123456.ra": tx[0] + "\n", "regex-assembly/123456-chain1.ra": tx[1] + "\n", "regex-assembly/123456-chain2.ra": tx[2] + "\n",
+				"regex-assembly/123457.ra": tx[3] + "\n", "regex-assembly/123457-chain1.ra": tx[4] + "\n", "rules/REQUEST-123-TEST.conf": rulesFile(old...)}
+			os.RemoveAll(sb)
+			t.Materialise(sb)
+			rc := core.RunCLI(r.Crs, sb, "", nil, "-d", sb, "regex", "update", "--all")
+			b, _ := os.ReadFile(filepath.Join(sb, "rules/REQUEST-123-TEST.conf"))
+			emit(offRes{fmt.Sprint("five files, texts ", tx), "--all", rc.Exit == 0 && string(b) == rulesFile(want...), fmt.Sprintf("exit %d; rules file is not the one in which every operand carries the regex of its own assembly file", rc.Exit)})
+		}
+	})
+	deaths = append(deaths, d4...)
+	offs = append(offs, multi...)
 	deaths = append(deaths, d3...)
 	if r.IsWorker() {
 		return
